@@ -154,6 +154,11 @@ def gen_scenarios(rng, tier: str) -> list[dict]:
         out.append(scn("x = 1\n", hog=0.05, start_delay=0.3, family='hog-boot'))
         out.append(scn(src_mixed(30), start_delay=0.4, family='slow-start-hook'))
         out.append(scn("x = 1\n", delay={'every': 1, 'seconds': 0.3}, family='slow-last-hook'))       # the last hook outlives the process
+        # the handler of the LAST relayed event is held while the child exits, the queue drains and the sentinel is read
+        out.append(scn("x = 1\n", delay={'types': ['OnEndTrace'], 'gate': 2.0}, family='held-last-hook'))
+        out.append(scn(src_calls(20), delay={'types': ['OnEndTrace'], 'seconds': 1.5}, family='held-last-hook'))
+        out.append(scn(src_prints(3), delay={'types': ['OnWriteStdout', 'OnEndTrace'], 'gate': 0.4}, family='held-last-hook'))
+        out.append(scn(src_calls(2), delay={'every': 1, 'seconds': 0.1}, kill={'how': 'kill', 'at_event': 3}, family='kill-slow'))
         out.append(scn(src_calls(300), kill={'how': 'kill', 'at_event': 100}, family='kill'))
         out.append(scn(src_calls(300), kill={'how': 'terminate', 'at_event': 7}, family='kill'))
         s, r = src_selfkill(100, 'sigkill')
@@ -161,7 +166,7 @@ def gen_scenarios(rng, tier: str) -> list[dict]:
         s, r = src_selfkill(40, 'hardexit')
         out.append(scn(s, r, family='selfkill', selfkill=True))
         for o in out:
-            if o['family'] in ('kill', 'selfkill'):
+            if o['family'] in ('kill', 'selfkill', 'kill-slow'):
                 o['timeout'] = 15
     else:
         for _ in range(40):
@@ -186,6 +191,19 @@ def gen_scenarios(rng, tier: str) -> list[dict]:
         for _ in range(12):
             out.append(scn(rng.choice(["x = 1\n", "print(1)\n", src_calls(1)]), delay={'every': 1, 'seconds': rng.choice([0.1, 0.3, 0.6])},
                            family='slow-last-hook'))
+        for _ in range(16):
+            types = rng.choice([['OnEndTrace'], ['OnEndTrace', 'OnEndTraceCall'], ['OnWriteStdout', 'OnEndTrace'], ['OnEndPrompt', 'OnEndTrace']])
+            d = {'types': types}
+            if rng.random() < 0.5:
+                d['gate'] = rng.choice([0.3, 1.0, 2.0])
+            else:
+                d['seconds'] = rng.choice([0.2, 0.8, 1.5])
+            if len(types) > 1 and 'seconds' in d:
+                d['seconds'] = 0.2
+            out.append(scn(rng.choice(["x = 1\n", src_prints(2), src_calls(3)]), delay=d, family='held-last-hook'))
+        for _ in range(12):
+            out.append(scn(src_calls(2), delay={'every': 1, 'seconds': rng.choice([0.05, 0.1])},
+                           kill={'how': rng.choice(['kill', 'terminate']), 'at_event': rng.randint(1, 20)}, family='kill-slow', timeout=15))
         for _ in range(30):
             out.append(scn(src_mixed(rng.choice([5, 30])), start_delay=rng.choice([0.1, 0.4]), family='slow-start-hook'))
         for _ in range(130):
@@ -225,6 +243,23 @@ def oracle(s: dict, o: dict, ref: list[dict] | None) -> list[tuple[str, str]]:
             bad.append(('event-after-end-run', f'{len(after)} event hook call(s)/completion(s) after on_end_run was called, first: {after[0][:2]}'))
         if kinds.count('end_run') > 1 or kinds.count('start_run') > 1:
             bad.append(('bracket-repeated', f'start_run x{kinds.count("start_run")}, end_run x{kinds.count("end_run")}'))
+    # ---- delivery = the handler has COMPLETED: every handler that began must have ended before on_end_run, one at a time
+    open_ev = None
+    n_begun = 0
+    for e in log:
+        if e[0] == 'ev':
+            n_begun += 1
+            if open_ev is not None:
+                bad.append(('handlers-overlap', f'the handler of event #{n_begun} ({e[1]}) began while the handler of event #{open_ev} was still running'))
+                break
+            open_ev = n_begun
+        elif e[0] == 'ev_done':
+            if open_ev is not None and e[1] == open_ev:
+                open_ev = None
+        elif e[0] == 'end_run' and open_ev is not None:
+            bad.append(('end-run-before-delivery-completed', f'on_end_run was called while the handler of event #{open_ev} '
+                                                             f'({[x for x in log if x[0] == "ev"][open_ev - 1][2].get("type")}) had not completed'))
+            break
     # ---- completeness / order
     if ref is None:
         return bad + [('no-reference', 'the in-process reference run of the script failed')]
@@ -319,7 +354,7 @@ def _evaluate(ctx, scns: list[dict], corr: Corr) -> None:
         if o.get('hang') and is_kill(s):
             hangs_after_kill += 1
         max_burst = max(max_burst, n_ev)
-        key = json.dumps([s['src'], s.get('delay'), s.get('kill'), s.get('hog'), s.get('start_delay')])
+        key = json.dumps([s['src'], s.get('delay'), s.get('kill'), s.get('hog'), s.get('start_delay')], sort_keys=True)
         if key not in seen:
             seen.add(key)
             if n_ev >= 3:
